@@ -18,7 +18,8 @@ BIN = os.path.join(TARGET, "release", "flounder_replay")
 
 # property -> list of (command, args for quick use, args for thorough use)
 NATIVE = {
-    "C01": [("movegen", ["--what=legal", "--walks=150", "--plies=30"], ["--what=legal", "--walks=1500", "--plies=60"])],
+    "C01": [("movegen", ["--what=legal", "--walks=150", "--plies=30"], ["--what=legal", "--walks=1500", "--plies=60"]),
+            ("movegen-small", ["--secs=60"], ["--secs=600"])],
     "C02": [("movegen", ["--what=make", "--walks=100", "--plies=30"], ["--what=make", "--walks=800", "--plies=60"])],
     "C17": [("movegen", ["--what=quiescence", "--walks=150", "--plies=30"], ["--what=quiescence", "--walks=1500", "--plies=60"])],
     "C15": [("tt-seq", ["--len=3"], ["--len=4"])],
